@@ -63,7 +63,8 @@ def gen_case(rng, cfg, idx):
     steps = []
     n = rng.randint(4, 14)
     acts = ["backward", "view", "read", "nullgrad", "use", "inplace", "backward", "untracked", "useview", "readview", "backward_view", "inplace_view",
-            "use_advidx", "use_boolidx", "use_einsum", "use_as_value", "nullgrad_discview", "view", "backward", "inplace_dangview", "inplace_dangview", "setshape_view", "setshape_view"]
+            "use_advidx", "use_boolidx", "use_einsum", "use_as_value", "nullgrad_discview", "view", "backward", "inplace_dangview", "inplace_dangview", "setshape_view", "setshape_view",
+            "squeeze_view", "failcall", "failcall"]
     for _ in range(n):
         steps.append(rng.choice(acts))
     return {"kind": "life", "steps": steps, "shape": [rng.randint(2, 3)] * rng.randint(1, 2), "kseed": rng.randrange(1 << 30)}
@@ -385,6 +386,25 @@ def run_life(case, cnt, viol, sets):
             with mg.no_autodiff:
                 y = x * 2.0
             del y
+            conn_after = conn
+        elif s == "squeeze_view":
+            # a VIEW operation that changes nothing (no unit axis to squeeze): the leaf is not "used as input to a non-view operation",
+            # its gradient persists - and the result is a proper view of it
+            y = mg.squeeze(x) if rng_.random() < 0.5 else x.squeeze()
+            if y is not x and y.base is not x:
+                viol.append({"monitor": "lifecycle", "mech": "view-op-result-without-base", "msg": f"step {i}: squeeze(x) of shape {x.shape} shares x's memory but reports base {y.base!r}"})
+            del y
+            conn_after = conn
+        elif s == "failcall":
+            # an operation on the leaf that FAILS (while its result is wrapped / in the kernel) is not a use: nothing changes
+            try:
+                if rng_.random() < 0.5:
+                    mg.multiply(x, 2.0, dtype=np.complex64)
+                else:
+                    mg.add(x, np.ones((7, 5)))        # (7, 5) broadcasts with none of the leaf shapes used here
+                viol.append({"monitor": "harness", "mech": "failcall-did-not-fail", "msg": f"step {i}: the call meant to fail returned"})
+            except Exception:
+                pass
             conn_after = conn
         else:  # read / readview: reading must not change anything
             _ = x.grad
